@@ -72,7 +72,10 @@ func (q *timedQueue) releaseUnsafe() {
 func (q *timedQueue) push(peerID peer.ID) {
 	q.Lock()
 	defer q.Unlock()
+	q.pushUnsafe(peerID)
+}
 
+func (q *timedQueue) pushUnsafe(peerID peer.ID) {
 	q.items = append(q.items, item{
 		ID:        peerID,
 		createdAt: q.clock.Now(),
